@@ -90,16 +90,21 @@ def _tolerated(sig):
 # --------------------------------------------------------------------------------------------------
 # cell specs (plain data):  {'b': '0101', 'r': [spec, ...]}  or  {'chain': d}  (d cells below, one reference each)
 
-def _pruned_bits(d):
-    """pruned branch, level mask 1: type 0x01, mask 0x01, a 256-bit hash, the depth of the pruned sub-tree (16 bits)"""
-    return R.uint(1, 8) + R.uint(1, 8) + R.uint(0x5A5A5A5A00000000 + d, 64) + '01' * 96 + R.uint(d, 16)
+def _pruned_bits(d, hi=None):
+    """pruned branch, level mask 1: type 0x01, mask 0x01, a 256-bit hash, the depth of the pruned sub-tree (16 bits);
+    with hi (a list of further depths): level mask 0b11 / 0b111 - one more hash and one more depth per level, the depth at
+    level 0 stays d (a cell above it has one depth PER LEVEL, each of them limited to 1023)"""
+    hi = list(hi or [])
+    n = 1 + len(hi)
+    return R.uint(1, 8) + R.uint((1 << n) - 1, 8) + ''.join(R.uint(0x5A5A5A5A00000000 + d + j, 64) + '01' * 96 for j in range(n)) + \
+        ''.join(R.uint(x, 16) for x in [d] + hi)
 
 
 def spec_bits(spec):
     if 'chain' in spec:
         return R.uint(spec['chain'] % 256, 8)
     if 'pruned' in spec:
-        return _pruned_bits(spec['pruned'])
+        return _pruned_bits(spec['pruned'], spec.get('hi'))
     return spec['b']
 
 
@@ -113,7 +118,9 @@ def spec_children(spec):
 
 def spec_depth(spec):
     if 'pruned' in spec:
-        return spec['pruned']        # an exotic child: its level-0 depth is the depth it stores, no chain has to exist
+        # an exotic child: its depth at each level is the depth it stores for that level, no chain has to exist; what limits the
+        # cell above it is the deepest of them
+        return max([spec['pruned']] + list(spec.get('hi') or []))
     if 'chain' in spec:
         return spec['chain']
     return 1 + max(spec_depth(r) for r in spec['r']) if spec['r'] else 0
@@ -136,7 +143,7 @@ def _build(ctx, spec):
     if 'chain' in spec:
         return _chain(ctx, spec['chain'])
     if 'pruned' in spec:
-        return Builder(type_=1).store_bits(_pruned_bits(spec['pruned'])).end_cell()
+        return Builder(type_=1).store_bits(_pruned_bits(spec['pruned'], spec.get('hi'))).end_cell()
     b = Builder().store_bits(spec['b'])
     for r in spec['r']:
         b.store_ref(_build(ctx, r))
@@ -151,8 +158,10 @@ def _walk_depth(cell, memo):
         if id(c) in memo:
             stack.pop()
             continue
-        if getattr(c, 'type_', -1) == 1:                # pruned branch: the depth it stores
-            memo[id(c)] = (c, int(c.bits.to01()[-16:], 2))
+        if getattr(c, 'type_', -1) == 1:                # pruned branch: the deepest of the depths it stores (one per level)
+            b01 = c.bits.to01()
+            nlev = bin(int(b01[8:16], 2)).count('1')
+            memo[id(c)] = (c, max(int(b01[len(b01) - 16 * (j + 1): len(b01) - 16 * j], 2) for j in range(nlev)))
             stack.pop()
             continue
         pend = [r for r in c.refs if id(r) not in memo]
@@ -499,9 +508,10 @@ def check_program(case):
             return Fail('end_cell/cell-over-capacity', f'{where}: cell with {len(cb)} bits, {len(cell.refs)} refs')
         if cb != mbits or len(cell.refs) != len(mrefs) or not all(x is y[0] for x, y in zip(cell.refs, mrefs)):
             return Fail('end_cell/cell-differs-from-model', f'{where}: cell {_clip(cb)} / {len(cell.refs)} refs, model {_clip(mbits)} / {len(mrefs)} refs')
-        ok, d = call(cell.get_depth)
-        if ok and d > MAXD:
-            return Fail('end_cell/cell-deeper-than-1023-produced', f'{where}: cell reports depth {d}')
+        for lvl in range(4):
+            ok, d = call(cell.get_depth, lvl)
+            if ok and d > MAXD:
+                return Fail('end_cell/cell-deeper-than-1023-produced', f'{where}: cell reports depth {d} at level {lvl}')
         # builder operations on a builder TAKEN FROM the finished cell must not grow the cell itself past the limits
         if len(cell.refs) < MAXR + 1:
             call(lambda: cell.to_builder().store_ref(cell).store_ref(cell))
@@ -724,7 +734,8 @@ def _draw_op(draw, kind, left, rleft):
         elif r == 11:
             c = {'pruned': 1023}                # exotic child whose level-0 depth is 1023: the parent would have depth 1024
         elif r == 10:
-            c = {'pruned': draw(st.sampled_from([0, 7, 1022]))}
+            c = draw(st.sampled_from([{'pruned': 0}, {'pruned': 7}, {'pruned': 1022}, {'pruned': 3, 'hi': [1023]}, {'pruned': 3, 'hi': [1022]},
+                                      {'pruned': 0, 'hi': [5, 1023]}, {'pruned': 1022, 'hi': [1022, 1022]}, {'pruned': 2, 'hi': [1023, 4]}]))
         elif r == 9:
             c = {'chain': 1023}
         elif r == 8:
